@@ -1,19 +1,22 @@
 ------------------------------ MODULE MC_Rename ------------------------------
-(* Bounded design model for C16.  One document: T1(a, b, k, v, r: Ref T2, f = $a, F1..Fn) and      *)
+(* Bounded design model for C16.  A document: T1(a, b, k, v, r: Ref T2, f = $a, F1..Fn) and      *)
 (* T2(k, v, w, q: Ref T1, G1..Gm); the columns T1.k / T2.k and T1.v / T2.v are twins (same name in  *)
 (* the other table).  F* / G* are formula columns, one per tree of the families below (every        *)
 (* reference form the property names, in several shapes, plus decoys: twins, string literals,       *)
-(* comments, local variables named like a column).  Level 1 = the hand-picked trees, Level 2 adds   *)
-(* the products of lookup / order_by / PREVIOUS-NEXT-RANK shapes.                                   *)
+(* comments, local variables named like a column).  Level 1 = one document with the hand-picked     *)
+(* trees; Level 2 adds a second document with the products of lookup / order_by / comprehension /   *)
+(* PREVIOUS-NEXT-RANK shapes (stepped through with the reduced set of inputs).                      *)
 (* An input = (target entity, rename path, requested name); the requested names come from classes   *)
 (* (fresh, needs sanitising, collides, keyword, case variants, empty, leading digit, unchanged,     *)
-(* grown, name of the other table's column, "id").  Full = every combination; otherwise every       *)
-(* target x path with the fresh name, every target x name class with one path, and a diagonal.      *)
-(* One state per input; SpecSane: the reference outcome (names picked as identifiers.py intends,    *)
-(* texts re-rendered, values kept) is admissible, and only tokens that mention the target differ    *)
-(* between the renderings.  The inputs are written to OUT_FILE for the harness.                     *)
+(* grown, name of the other table's column, "id", a keyword of the lookup functions, the name of a   *)
+(* function that formulas call).                                                                    *)
+(* Full = every combination; otherwise every target x path with the fresh name, every target x      *)
+(* name class with one path, and a diagonal.                                                        *)
+(* One state per input (in Lanes chains); SpecSane: the reference outcome (names picked as          *)
+(* identifiers.py intends, texts re-rendered, values kept) is admissible, and only tokens that       *)
+(* mention the target differ between the renderings.  The inputs are written to OUT_FILE.            *)
 EXTENDS Rename, Json, IOUtils, SequencesExt, FiniteSetsExt
-CONSTANTS Level, Full
+CONSTANTS Level, Full, Lanes
 
 A1 == "T1.a"  B1 == "T1.b"  K1 == "T1.k"  V1 == "T1.v"  R1 == "T1.r"  F1 == "T1.f"
 K2 == "T2.k"  V2 == "T2.v"  W2 == "T2.w"  Q2 == "T2.q"
@@ -130,9 +133,11 @@ CompProd ==
            << lk(LR, "T2", <<<<K2, c(A1)>>>>, <<>>, <<>>), lk(LR, "T2", <<<<K2, c(A1)>>>>, S(DQ, "-", V2), <<>>),
               all("T2", <<>>) >>, g)
 
-FormulasT1 == Direct1 \o Chains1 \o Lookups1 \o Ordered1 \o All1 \o Comps1 \o PrevNext1 \o Decoys1 \o Lets1
-              \o (IF Level >= 2 THEN LookupProd \o PrevNextProd \o CompProd ELSE <<>>)
-FormulasT2 == Host2
+\* document 1: the hand-picked trees; document 2 (Level 2 only): the products
+FormulasT1(d) == IF d = 1 THEN Direct1 \o Chains1 \o Lookups1 \o Ordered1 \o All1 \o Comps1 \o PrevNext1
+                                \o Decoys1 \o Lets1
+                 ELSE LookupProd \o PrevNextProd \o CompProd
+FormulasT2(d) == Host2
 
 (* ---- the document ------------------------------------------------------------------------------ *)
 DataCol(id, tab, name, data) ==
@@ -144,17 +149,17 @@ FCol(id, tab, name, f) ==
 FCols(tab, prefix, fs) ==
   [j \in 1..Len(fs) |-> FCol(tab \o "." \o prefix \o NumStr(j), tab, prefix \o NumStr(j), fs[j])]
 
-ColSeq == << DataCol(A1, "T1", "a", <<1, 2, 1>>), DataCol(B1, "T1", "b", <<3, 1, 2>>),
+ColSeq(d) == << DataCol(A1, "T1", "a", <<1, 2, 1>>), DataCol(B1, "T1", "b", <<3, 1, 2>>),
                DataCol(K1, "T1", "k", <<2, 1, 3>>), DataCol(V1, "T1", "v", <<9, 8, 7>>),
                RefCol(R1, "T1", "r", "T2", <<2, 3, 1>>),
                DataCol(K2, "T2", "k", <<1, 1, 2, 3>>), DataCol(V2, "T2", "v", <<5, 3, 4, 7>>),
                DataCol(W2, "T2", "w", <<2, 1, 1, 3>>), RefCol(Q2, "T2", "q", "T1", <<1, 2, 3, 1>>),
                FCol(F1, "T1", "f", F(c(A1))) >>
-            \o FCols("T1", "F", FormulasT1) \o FCols("T2", "G", FormulasT2)
+            \o FCols("T1", "F", FormulasT1(d)) \o FCols("T2", "G", FormulasT2(d))
 \* keyed by identity; `ord` = the order in which the harness adds the columns
 \* (TLC re-evaluates a definition at every use: bind the sequence once)
-Doc ==
-  LET cs  == ColSeq
+Doc(d) ==
+  LET cs  == ColSeq(d)
       idx == [j \in 1..Len(cs) |-> cs[j].id]
   IN [tables |-> << [id |-> "T1", name |-> "T1", nrows |-> 3], [id |-> "T2", name |-> "T2", nrows |-> 4] >>,
       cols |-> [id \in SeqRange(idx) |->
@@ -181,22 +186,31 @@ ColReqs(D, e) ==
   << <<"fresh", "zz">>, <<"sanitise", "my col!">>, <<"collide", sib>>, <<"keyword", "class">>,
      <<"case", Up(own)>>, <<"sibcase", Up(sib)>>, <<"empty", "">>, <<"digit", "1st">>,
      <<"same", own>>, <<"grow", own \o own>>,
-     <<"othertab", IF ColOf(D, e).tab = "T1" THEN "w" ELSE "b">>, <<"id", "id">> >>
+     <<"othertab", IF ColOf(D, e).tab = "T1" THEN "w" ELSE "b">>, <<"id", "id">>,
+     <<"lookupkw", "sort_by">> >>
 TabReqs(D, e) ==
   LET own == TabOf(D, e).name  sib == IF e = "T1" THEN "T2" ELSE "T1" IN
   << <<"fresh", "Zz">>, <<"capitalise", "zz">>, <<"sanitise", "my tab!">>, <<"collide", sib>>,
      <<"keyword", "none">>, <<"case", Down(own)>>, <<"sibcase", Down(sib)>>, <<"empty", "">>,
-     <<"digit", "2x">>, <<"same", own>>, <<"grow", own \o own>>, <<"colname", "v">> >>
+     <<"digit", "2x">>, <<"same", own>>, <<"grow", own \o own>>, <<"colname", "v">>,
+     <<"function", "PREVIOUS">> >>
 
-Mk(e, p, r) == [doc |-> 1, target |-> e, path |-> p, cls |-> r[1], req |-> r[2]]
-InputsOf(D, targets, paths, Reqs(_, _)) ==
+Mk(d, e, p, r) == [doc |-> d, target |-> e, path |-> p, cls |-> r[1], req |-> r[2]]
+\* `full`: every combination; otherwise every target x path with the first name class and every
+\* target x name class with the first path
+InputsOf(D, d, full, targets, paths, Reqs(_, _)) ==
   Flat([t \in 1..Len(targets) |-> Flat([p \in 1..Len(paths) |->
      LET rs == Reqs(D, targets[t])
-         keep(r) == Full \/ r = 1 \/ p = 1 \/ ((t + p + r) % 5 = 0)
-     IN SelectSeq([r \in 1..Len(rs) |-> <<r, Mk(targets[t], paths[p], rs[r])>>],
+         keep(r) == full \/ r = 1 \/ p = 1
+     IN SelectSeq([r \in 1..Len(rs) |-> <<r, Mk(d, targets[t], paths[p], rs[r])>>],
                   LAMBDA x : keep(x[1]))])])
-InputsFor(D) == Map1(InputsOf(D, ColTargets, ColPathSeq, ColReqs) \o InputsOf(D, TabTargets, TabPathSeq, TabReqs),
-                     LAMBDA x : x[2])
+InputsFor(D, d, full) ==
+  Map1(InputsOf(D, d, full, ColTargets, ColPathSeq, ColReqs) \o InputsOf(D, d, full, TabTargets, TabPathSeq, TabReqs),
+       LAMBDA x : x[2])
+\* the documents and the inputs of this configuration
+Space == LET D1 == Doc(1) IN
+         IF Level < 2 THEN [docs |-> <<D1>>, xs |-> InputsFor(D1, 1, Full)]
+         ELSE LET D2 == Doc(2) IN [docs |-> <<D1, D2>>, xs |-> InputsFor(D1, 1, Full) \o InputsFor(D2, 2, FALSE)]
 
 (* ---- reference outcome ------------------------------------------------------------------------- *)
 Hidden == [e \in {"T1.manualSort", "T2.manualSort"} |-> "manualSort"]
@@ -213,21 +227,27 @@ Ref(in) ==
       vals == [e \in DOMAIN N0 \ TableIds(in.sch) |-> <<"#0">>]
   IN [fail |-> "", exc |-> "", names0 |-> N0, names1 |-> N1, names2 |-> N0,
       texts0 |-> t0, texts1 |-> texts(N1), texts2 |-> t0,
-      vals0 |-> vals, vals1 |-> vals, vals2 |-> vals, dig0 |-> 0, dig1 |-> 1, cons1 |-> TRUE, undo_exc |-> ""]
+      vals0 |-> vals, vals1 |-> vals, vals1r |-> vals, vals2 |-> vals, dig0 |-> 0, dig1 |-> 1, cons1 |-> TRUE, undo_exc |-> ""]
 
-\* the document is in the family; every target that a formula can mention is mentioned
-ASSUME LET D == Doc IN
-       /\ SchOk(D)
-       /\ \A e \in {A1, B1, K1, V1, R1, F1, K2, V2, W2, Q2, "T1", "T2"} :
-             \E id \in ColIds(D) : e \in Mentions(D, D.cols[id])
-       /\ "OUT_FILE" \in DOMAIN IOEnv => JsonSerialize(IOEnv.OUT_FILE, [docs |-> <<D>>, inputs |-> InputsFor(D)])
+\* the documents are in the family; every target that a formula can mention is mentioned
+ASSUME LET sp == Space IN
+       /\ \A d \in 1..Len(sp.docs) :
+            LET D == sp.docs[d] IN
+            /\ SchOk(D)
+            /\ \A e \in {A1, B1, K1, V1, R1, K2, V2, W2, Q2, "T1", "T2"} \cup (IF d = 1 THEN {F1} ELSE {}) :
+                  \E id \in ColIds(D) : e \in Mentions(D, D.cols[id])
+       /\ "OUT_FILE" \in DOMAIN IOEnv => JsonSerialize(IOEnv.OUT_FILE, [docs |-> sp.docs, inputs |-> sp.xs])
 
-VARIABLE input
-Init == LET D == Doc  xs == InputsFor(D) IN input \in {InOf(D, xs[j]) : j \in 1..Len(xs)}
-Next == UNCHANGED input
+\* One state per input; Lanes chains of states so that TLC's workers share the evaluation.  `space`
+\* (the documents and the inputs) is evaluated once and carried along.
+VARIABLES k, space
+Init == space = Space /\ k \in 1..Lanes
+Next == k + Lanes <= Len(space.xs) /\ k' = k + Lanes /\ UNCHANGED space
 SpecSane ==
-  LET o == Ref(input)
-  IN /\ StepOk(input)
-     /\ Ok(input, o)
-     /\ OnlyMentionsChange(input.sch, o.names0, o.names1, {input.target})
+  k <= Len(space.xs) =>
+    LET in == InOf(space.docs[space.xs[k].doc], space.xs[k])
+        o  == Ref(in)
+    IN /\ StepOk(in)
+       /\ Ok(in, o)
+       /\ OnlyMentionsChange(in.sch, o.names0, o.names1, {in.target})
 =============================================================================
